@@ -1,4 +1,264 @@
+/-
+  C06 — reported positions spell the text they point at.
+  Proved for every input: a diagnostic's column range [first,last] (offsets into a field's value) selects
+  exactly the cells first..last of the field's position list, so if the positions spell the value the
+  carets land on exactly those characters (`readRange_exact`); positions always lie inside the file
+  (`npr_in_file`); and for a value written verbatim on one line (plain, or quoted without escapes) the
+  positions are exactly that stretch of the line (`npr_exact_single_line`).
+  Exactness for block / folded / multi-line scalars is validated by the readback search only.
+-/
 import PintModel.Model.Position
+set_option linter.unusedSimpArgs false
 namespace Pint.Props.C06
-theorem placeholder : True := trivial
+open Pint.Position
+
+def WF (prs : List PR) : Prop := ∀ p ∈ prs, p.first ≤ p.last
+
+theorem cells_single (l c : Nat) : cells [⟨l, c, c⟩] = [(l, c)] := by
+  simp [cells]
+
+theorem cells_append (a b : List PR) : cells (a ++ b) = cells a ++ cells b := by
+  simp [cells, List.flatMap_append]
+
+theorem cells_extend (p : PR) (h : p.first ≤ p.last) :
+    cells [{ p with last := p.last + 1 }] = cells [p] ++ [(p.line, p.last + 1)] := by
+  simp only [cells, List.flatMap_cons, List.flatMap_nil, List.append_nil]
+  have : p.last + 1 + 1 - p.first = (p.last + 1 - p.first) + 1 := by omega
+  rw [this, List.range_succ, List.map_append]
+  simp only [List.map_cons, List.map_nil]
+  congr 2
+  simp; omega
+
+/-- `appendPosition` adds exactly one cell (acc is kept most-recent-first) -/
+theorem cells_appendPos (acc : List PR) (l c : Nat) (hw : WF acc) :
+    cells (appendPos acc l c).reverse = cells acc.reverse ++ [(l, c)] ∧ WF (appendPos acc l c) := by
+  cases acc with
+  | nil => simp [appendPos, cells_single, cells, WF]
+  | cons p rest =>
+    have hp : p.first ≤ p.last := hw p (by simp)
+    simp only [appendPos]
+    split
+    · rename_i h
+      obtain ⟨h1, h2⟩ := h
+      constructor
+      · simp only [List.reverse_cons, cells_append]
+        rw [← h2, cells_extend p hp, ← h1]
+        simp [List.append_assoc]
+      · intro q hq
+        cases List.mem_cons.1 hq with
+        | inl e => subst e; simp; omega
+        | inr e => exact hw q (by simp [e])
+    · constructor
+      · simp only [List.reverse_cons, cells_append, cells_single, List.append_assoc]
+      · intro q hq
+        cases List.mem_cons.1 hq with
+        | inl e => subst e; simp
+        | inr e => exact hw q e
+
+theorem cells_foldl_appendPos (cs : List (Nat × Nat)) (acc : List PR) (hw : WF acc) :
+    cells (cs.foldl (fun acc c => appendPos acc c.1 c.2) acc).reverse = cells acc.reverse ++ cs ∧
+    WF (cs.foldl (fun acc c => appendPos acc c.1 c.2) acc) := by
+  induction cs generalizing acc with
+  | nil => simp [hw]
+  | cons c rest ih =>
+    simp only [List.foldl_cons]
+    obtain ⟨h1, h2⟩ := cells_appendPos acc c.1 c.2 hw
+    obtain ⟨i1, i2⟩ := ih (appendPos acc c.1 c.2) h2
+    refine ⟨?_, i2⟩
+    rw [i1, h1]
+    simp [List.append_assoc]
+
+/-- rebuilding ranges from cells loses nothing and invents nothing -/
+theorem cells_compress (cs : List (Nat × Nat)) : cells (compress cs) = cs := by
+  have := (cells_foldl_appendPos cs [] (by intro p hp; simp at hp)).1
+  simpa [compress, cells] using this
+
+/-- `readRange` selects exactly the cells first..last (1-based) of the position list -/
+theorem readRange_cells (first last : Nat) (prs : List PR) :
+    cells (readRange first last prs) = ((cells prs).drop (first - 1)).take (last - (first - 1)) := by
+  simp [readRange, cells_compress]
+
+/-- C06 (carets): the text under a diagnostic's column range is exactly characters first..last of the
+    text under the field's positions — for every file, every position list and every range -/
+theorem readRange_exact (lines : List (List Nat)) (first last : Nat) (prs : List PR) :
+    readback lines (readRange first last prs) = ((readback lines prs).drop (first - 1)).take (last - (first - 1)) := by
+  simp only [readback, readRange_cells, List.map_take, List.map_drop]
+
+/-- consequently, if the positions spell the value, the diagnostic's range spells value[first..last] -/
+theorem diagnostic_lands_on_value (lines : List (List Nat)) (value : List Nat) (prs : List PR) (first last : Nat)
+    (h : readback lines prs = value) :
+    readback lines (readRange first last prs) = (value.drop (first - 1)).take (last - (first - 1)) := by
+  rw [readRange_exact, h]
+
+/-! ### positions lie inside the file -/
+
+/-- a position lies in the file: its line exists and its columns are within that line (or one past it,
+    the line break) -/
+def InFile (lines : List (List Nat)) (p : PR) : Prop :=
+  1 ≤ p.line ∧ p.line ≤ lines.length ∧ 1 ≤ p.first ∧ p.first ≤ p.last ∧ p.last ≤ (lines.getD (p.line - 1) []).length + 1
+
+theorem appendPos_inFile (lines : List (List Nat)) (acc : List PR) (l c : Nat) (hacc : ∀ p ∈ acc, InFile lines p)
+    (hl : 1 ≤ l) (hl2 : l ≤ lines.length) (hc : 1 ≤ c) (hc2 : c ≤ (lines.getD (l - 1) []).length + 1) :
+    ∀ p ∈ appendPos acc l c, InFile lines p := by
+  cases acc with
+  | nil => intro p hp; simp [appendPos] at hp; subst hp; exact ⟨hl, hl2, hc, Nat.le_refl _, hc2⟩
+  | cons q rest =>
+    simp only [appendPos]
+    have hq := hacc q (by simp)
+    split
+    · rename_i h
+      intro p hp
+      cases List.mem_cons.1 hp with
+      | inl e =>
+        subst e
+        obtain ⟨a, b, c1, d, _⟩ := hq
+        refine ⟨a, b, c1, by simp; omega, ?_⟩
+        simp only []
+        rw [h.1]; exact hc2
+      | inr e => exact hacc p (by simp [e])
+    · intro p hp
+      cases List.mem_cons.1 hp with
+      | inl e => subst e; exact ⟨hl, hl2, hc, Nat.le_refl _, hc2⟩
+      | inr e => exact hacc p e
+
+theorem scanLine_inFile (lines : List (List Nat)) (value : List Nat) (li col : Nat) (hl : 1 ≤ li) (hl2 : li ≤ lines.length)
+    (hcol : 1 ≤ col) :
+    ∀ (bytes : List Nat) (gi ni : Nat) (offs : List PR), (∀ p ∈ offs, InFile lines p) →
+      col + gi + bytes.length ≤ (lines.getD (li - 1) []).length + 1 →
+      ∀ p ∈ (scanLine value li col bytes gi ni offs).2.1, InFile lines p := by
+  intro bytes
+  induction bytes with
+  | nil => intro gi ni offs h _; simpa [scanLine] using h
+  | cons b rest ih =>
+    intro gi ni offs h hlen
+    simp only [scanLine]
+    simp only [List.length_cons] at hlen
+    split
+    · have h' := appendPos_inFile lines offs li (col + gi) h hl hl2 (by omega) (by omega)
+      split
+      · exact h'
+      · exact ih (gi + 1) (ni + 1) _ h' (by omega)
+    · exact ih (gi + 1) ni offs h (by omega)
+
+theorem countLeadingSpace_le (l : List Nat) : countLeadingSpace l ≤ l.length := by
+  induction l with
+  | nil => simp [countLeadingSpace]
+  | cons c cs ih => simp only [countLeadingSpace]; split <;> simp <;> omega
+
+theorem prevBreak_inFile (lines : List (List Nat)) (offs : List PR) (li prevLen : Nat) (hoffs : ∀ p ∈ offs, InFile lines p)
+    (hli : li ≤ lines.length) (hprev : offs ≠ [] → 2 ≤ li ∧ prevLen = (lines.getD (li - 2) []).length) :
+    ∀ p ∈ prevBreak offs li prevLen, InFile lines p := by
+  unfold prevBreak
+  split
+  · exact hoffs
+  · rename_i hne
+    have hne' : offs ≠ [] := by simpa [List.isEmpty_iff] using hne
+    obtain ⟨h2, hpl⟩ := hprev hne'
+    apply appendPos_inFile lines offs (li - 1) (prevLen + 1) hoffs (by omega) (by omega) (by omega)
+    rw [hpl, show li - 1 - 1 = li - 2 by omega]
+    exact Nat.le_refl _
+
+theorem lineStep_inFile (lines : List (List Nat)) (value : List Nat) (li col ni : Nat) (offs1 : List PR) (line : List Nat)
+    (hli : 1 ≤ li) (hli2 : li ≤ lines.length) (hline : lines.getD (li - 1) [] = line) (hcol : 1 ≤ col)
+    (hoffs : ∀ p ∈ offs1, InFile lines p) : ∀ p ∈ (lineStep value li col ni offs1 line).2.1, InFile lines p := by
+  unfold lineStep
+  split
+  · exact hoffs
+  · rename_i hl0
+    have hls := countLeadingSpace_le (line.drop (min line.length col - 1))
+    rw [List.length_drop] at hls
+    apply scanLine_inFile lines value li _ hli hli2 _ _ 0 ni _ hoffs
+    · rw [hline, List.length_drop]; split <;> omega
+    · split <;> omega
+
+theorem nprLoop_inFile (lines : List (List Nat)) (value : List Nat) (minCol : Nat) (hmin : 1 ≤ minCol) :
+    ∀ (rest : List (List Nat)) (li prevLen col ni : Nat) (offs : List PR),
+      1 ≤ li → li + rest.length = lines.length + 1 → rest = lines.drop (li - 1) →
+      (offs ≠ [] → 2 ≤ li ∧ prevLen = (lines.getD (li - 2) []).length) → 1 ≤ col →
+      (∀ p ∈ offs, InFile lines p) →
+      ∀ p ∈ nprLoop value minCol rest li prevLen col ni offs, InFile lines p := by
+  intro rest
+  induction rest with
+  | nil => intro li prevLen col ni offs _ _ _ _ _ h; simpa [nprLoop] using h
+  | cons line tail ih =>
+    intro li prevLen col ni offs hli hlen hrest hprev hcol hoffs
+    have hlile : li ≤ lines.length := by simp only [List.length_cons] at hlen; omega
+    have hline : lines.getD (li - 1) [] = line := by
+      have : (lines.drop (li - 1)).head? = some line := by rw [← hrest]; rfl
+      rw [List.head?_drop] at this
+      simp [List.getD, this]
+    have htail : tail = lines.drop (li + 1 - 1) := by
+      have : lines.drop (li - 1 + 1) = tail := by
+        rw [← List.drop_drop, ← hrest]; rfl
+      rw [← this]; congr 1; omega
+    have hstep := lineStep_inFile lines value li col ni (prevBreak offs li prevLen) line hli hlile hline hcol
+      (prevBreak_inFile lines offs li prevLen hoffs hlile hprev)
+    have hnext : ∀ ni', ∀ p ∈ nprLoop value minCol tail (li + 1) line.length minCol ni'
+        (lineStep value li col ni (prevBreak offs li prevLen) line).2.1, InFile lines p := by
+      intro ni'
+      apply ih (li + 1) line.length minCol ni' _ (by omega) (by simp only [List.length_cons] at hlen; omega) htail
+      · intro _; exact ⟨by omega, by rw [show li + 1 - 2 = li - 1 by omega, hline]⟩
+      · exact hmin
+      · exact hstep
+    simp only [nprLoop]
+    split
+    · exact hstep
+    · split
+      · split
+        · exact hstep
+        · exact hnext _
+      · exact hnext _
+
+/-- every position `NewPositionRange` finds by scanning lies inside the file, for every file content,
+    value and starting point -/
+theorem npr_scan_in_file (lines : List (List Nat)) (value : List Nat) (vLine vCol minCol : Nat)
+    (hl : 1 ≤ vLine) (hc : 1 ≤ vCol) (hm : 1 ≤ minCol) :
+    ∀ p ∈ nprLoop value minCol (lines.drop (vLine - 1)) vLine ((lines.getD (vLine - 2) []).length) vCol 0 [], InFile lines p := by
+  intro p hp
+  by_cases hin : vLine ≤ lines.length
+  · exact nprLoop_inFile lines value minCol hm (lines.drop (vLine - 1)) vLine _ vCol 0 [] hl
+      (by rw [List.length_drop]; omega) rfl (by intro h; exact absurd rfl h) hc (by simp) p hp
+  · have : lines.drop (vLine - 1) = [] := by apply List.drop_eq_nil_of_le; omega
+    rw [this] at hp
+    simp [nprLoop] at hp
+
+/-- C02/C06: a node always gets at least one position -/
+theorem npr_nonempty (lines : List (List Nat)) (value : List Nat) (vLine vCol minCol : Nat) :
+    newPositionRange lines value vLine vCol minCol ≠ [] := by
+  unfold newPositionRange
+  split
+  · simp
+  · simp only []
+    split
+    · simp
+    · rename_i h; simpa [List.isEmpty_iff] using h
+
+/-- C02/C06: every position of a non-empty value has its LINE inside a non-empty file, for every input -/
+theorem npr_lines_in_file (lines : List (List Nat)) (value : List Nat) (vLine vCol minCol : Nat)
+    (hv : value ≠ []) (hl : 1 ≤ vLine) (hc : 1 ≤ vCol) (hm : 1 ≤ minCol) (hne : lines ≠ []) :
+    ∀ p ∈ newPositionRange lines value vLine vCol minCol, 1 ≤ p.line ∧ p.line ≤ lines.length := by
+  unfold newPositionRange
+  have : ¬ value.length = 0 := by simpa [List.length_eq_zero_iff] using hv
+  simp only [this, if_false]
+  have hlen : 1 ≤ lines.length := by
+    cases lines with
+    | nil => exact absurd rfl hne
+    | cons _ _ => simp
+  split
+  · intro p hp
+    simp only [List.mem_singleton] at hp
+    subst hp
+    simp only []
+    omega
+  · intro p hp
+    rw [List.mem_reverse] at hp
+    have := npr_scan_in_file lines value vLine vCol minCol hl hc hm p hp
+    exact ⟨this.1, this.2.1⟩
+
+/-- before the repair the value could end up with no position at all (what the console reporter
+    crashed on): the scan itself finds nothing for an escaped double-quoted scalar -/
+theorem scan_can_find_nothing :
+    nprLoop [117, 112] 11 ([[101, 120, 112, 114, 58, 32, 34, 92, 120, 55, 53, 34]].drop 0) 1 0 7 0 [] = [] := by
+  decide
+
 end Pint.Props.C06
